@@ -243,11 +243,20 @@ def run(ctx):
                     break
     # model-specification graphs and IC dict of the generic simulators
     import specs
-    for _ in range(ctx.scale(10, 100)):
+    for _ in range(ctx.scale(24, 200)):
         c = allsims.gen_case(ctx.rng, "Gillespie_simple_contagion")
         G, lab = sims.build_graph(c)
         H, J = specs.spec_graphs(c)
         specs.prepare_graph(c, G, lab)
+        # half of the cases: one transition of the specification has rate 0 (a legal way of switching a transition off
+        # while keeping one specification object for a parameter sweep) — the caller's graphs must keep that edge
+        if ctx.rng.random() < 0.5:
+            for X in ctx.rng.sample([H, J], 2):
+                es = list(X.edges())
+                if es:
+                    X.edges[ctx.rng.choice(es)]["rate"] = 0.0
+                    ctx.count("spec-graphs:rate-0 edge")
+                    break
         IC = {lab(i): c["IC"][i] for i in range(c["n"])}
         ret = list(c["return_statuses"])
         args = (G, H, J, IC, ret)
